@@ -341,7 +341,19 @@ TAG_DEEP3 = "three-fibers-collide-two-levels-above-leaf"   # >= 3 fibers meet at
 
 # input-class tags qualify a `raised` key only when the exception comes from a site that class can explain
 TAG_SITES = {TAG_SKIP: ("_addFiber", "append"), TAG_INNER: ("_mergeRanksHelper", "_flattenCoords"),
-             TAG_DEEP3: ("lambda", "_mergeToFibertree")}
+             TAG_DEEP3: ("lambda", "_mergeToFibertree"), TAG_STALE: ("swizzleRanks",),
+             TAG_EMPTY_EST: ("_unflattenRankIdsShape",)}
+
+
+def _op_family(op):
+    """Transform family of an entry point (flattenRanks is implemented by mergeRanks)."""
+    m = op.split(":")[0].split(".")[-1]
+    return "flatten|merge" if m in ("flattenRanks", "flattenRanksBelow", "mergeRanks") else m
+
+
+def _class_key(op, tags, kind):
+    """Key of a violation that falls into a recognised input class: family + class + failure kind."""
+    return f"{_op_family(op)}:{'+'.join(sorted(tags))}:{kind}"
 
 
 class _Ctx:
@@ -377,8 +389,8 @@ def _call(ctx, op, desc, fn, *a, tags=(), **k):
             raise
         site = _lib_frame(e)
         use = [t for t in tags if t not in TAG_SITES or site in TAG_SITES[t]]
-        ctx.mon.violation(_key([op, "raised", f"{type(e).__name__}@{site}"], use),
-                          f"{desc} raised {type(e).__name__}: {e}")
+        key = _class_key(op, use, "raised") if use else _key([op, "raised", f"{type(e).__name__}@{site}"])
+        ctx.mon.violation(key, f"{desc} raised {type(e).__name__}@{site}: {e}")
         return False, None
 
 
@@ -396,8 +408,9 @@ def _judge(ctx, op, desc, res, expected, clause="content", style=None, tags=(), 
     probs = wfp = WF(res)
     if probs:
         ok = False
-        mon.violation(_key([op, "WF", "+".join(sorted({wf_kind(p) for p in probs}))], tags),
-                      f"result of {desc} is not well formed: " + "; ".join(probs[:3]))
+        kinds = "+".join(sorted({wf_kind(p) for p in probs}))
+        mon.violation(_class_key(op, tags, "WF") if tags else _key([op, "WF", kinds]),
+                      f"result of {desc} is not well formed ({kinds}): " + "; ".join(probs[:3]))
     else:
         mon.count("oracle_evals")
     if isinstance(res, Tensor):
@@ -405,8 +418,9 @@ def _judge(ctx, op, desc, res, expected, clause="content", style=None, tags=(), 
         probs = RC(res)
         if probs:
             ok = False
-            mon.violation(_key([op, "RC", "+".join(sorted({rc_kind(p) for p in probs}))], tags),
-                          f"rank bookkeeping of the result of {desc} does not mirror its tree: " + "; ".join(probs[:3]))
+            kinds = "+".join(sorted({rc_kind(p) for p in probs}))
+            mon.violation(_class_key(op, tags, "RC") if tags else _key([op, "RC", kinds]),
+                          f"rank bookkeeping of the result of {desc} does not mirror its tree ({kinds}): " + "; ".join(probs[:3]))
         else:
             mon.count("oracle_evals")
     root = _root(res)
@@ -420,10 +434,12 @@ def _judge(ctx, op, desc, res, expected, clause="content", style=None, tags=(), 
         extra = [p for p in got if p not in expected]
         wrong = [p for p in expected if p in got and got[p] != expected[p]]
         if alt is not None and got == alt[1]:
-            kinds, ctags, tags = alt[0], (), ()
+            key = _class_key(op, (alt[0],), "content")
+        elif tuple(ctags) + (tuple(tags) if wfp else ()):
+            key = _class_key(op, tuple(ctags) + (tuple(tags) if wfp else ()), "content")
         else:
-            kinds = "+".join(k for k, lst in (("missing", missing), ("extra", extra), ("value", wrong)) if lst)
-        mon.check(False, _key(parts + [kinds], tuple(ctags) + (tuple(tags) if wfp else ())),
+            key = _key(parts + ["mismatch"])
+        mon.check(False, key,
                   f"{desc}: content differs from the image of the original: missing {missing[:4]} extra {extra[:4]} "
                   f"wrong values (point, got, expected) {[(p, got[p], expected[p]) for p in wrong[:4]]} "
                   f"({len(got)} points, expected {len(expected)})")
